@@ -183,12 +183,17 @@ def check_reads(ctx, store, ledger, stamps, where, mon_prefix=None):
         Ts.append(a)
         Ts.append(a + (b - a) / 2 if b is not None else a + datetime.timedelta(hours=5))
     Ts.append(None)
-    snap0 = (list(store.index), _vl(store)) if hasattr(store, 'values') else None
+    snap0 = (list(store.index), _vl(store), store.index.name, list(store.columns)) if hasattr(store, 'values') else None
     import pandas as _pd
     for ti, T in enumerate(Ts):
         for what in (-1, 0):
             # the read time in the flavours a caller may hold it in: datetime, pandas Timestamp, numpy datetime64
             Tq = T if T is None or (ti + what) % 3 == 0 else (_pd.Timestamp(T) if (ti + what) % 3 == 1 else np.datetime64(T))
+            if T is not None and getattr(T, 'tzinfo', None) is None and (ti * 7 + what + len(us)) % 4 == 0:
+                # ... or in the spellings Bi / bi_merge accept for a stamp: ISO text, and for a midnight a date or a yyyymmdd integer
+                midnight = T == datetime.datetime(T.year, T.month, T.day)
+                Tq = [T.isoformat(), T.date() if midnight else T.isoformat(' '), (T.year * 10000 + T.month * 100 + T.day) if midnight else T.isoformat()][(ti + len(us)) % 3]
+                ctx.cls('read_time_as:%s' % type(Tq).__name__)
             if T is not None and getattr(T, 'tzinfo', None) is not None:
                 Tq = _pd.Timestamp(T).tz_convert(['Asia/Tokyo', 'America/New_York', 'UTC'][(ti + what) % 3])      # the same instant quoted in the reader's zone
             st, res = ctx.call(bi_read, store, Tq, what)
@@ -215,7 +220,7 @@ def check_reads(ctx, store, ledger, stamps, where, mon_prefix=None):
                 ctx.fail(mon, 'bi_read(asof=%s, what=%d): %d date(s) differ, e.g. %s -> %s, ledger says %s; entries for that date %s (%s)' % (T, what, len(bad), d.date(), g, v, ledger[d], where))
                 return False
     if snap0 is not None:
-        if not ctx.check('read_does_not_change_store', (list(store.index), _vl(store)) == snap0, lambda: 'reading changed the stored rows (%s)' % where):
+        if not ctx.check('read_does_not_change_store', (list(store.index), _vl(store), store.index.name, list(store.columns)) == snap0, lambda: 'reading changed the store: rows, column labels or the name of its index (%r -> %r) (%s)' % (snap0[2], store.index.name, where)):
             return False
     return True
 
